@@ -1,39 +1,49 @@
 #!/usr/bin/env python3
-"""Regression matrix: apply every seeded change under /verif/seeded to /repo (working tree only), run the quick
+"""Regression matrix: apply every seeded change under seeded/ to the repository (working tree only), run the quick
 tier of the property's check, undo it, and report which are detected.   seeded_matrix.py [name-filter]
-Writes /verif/seeded/MATRIX.json. /repo must be clean; it is left clean."""
-import json, os, subprocess, sys, glob, re
-V = "/verif"
+Writes seeded/MATRIX.json next to this tool's tree. The repository must be clean; it is left clean.
+Under `vp run --with-repo` ($VP_RUN_REPO set) the repository snapshot is used and the snapshot's go.mod is pointed at
+it, so /repo itself is never touched; the result is also copied to /dev/shm/MATRIX.json."""
+import json, os, subprocess, sys, glob, re, shutil
+V = os.path.dirname(os.path.dirname(os.path.abspath(__file__)))
+REPO = os.environ.get("VP_RUN_REPO") or "/repo"
+if REPO != "/repo":
+    gm = open(os.path.join(V, "go.mod")).read()
+    gm = re.sub(r"(github.com/echovault/sugardb => )\S+", r"\g<1>" + REPO, gm)
+    open(os.path.join(V, "go.mod"), "w").write(gm)
 flt = sys.argv[1] if len(sys.argv) > 1 else ""
 env = dict(os.environ, GOFLAGS="-mod=mod", GOPROXY="off", GOSUMDB="off")
 def sh(cmd, cwd=V, timeout=3600):
     p = subprocess.run(cmd, shell=True, cwd=cwd, env=env, capture_output=True, text=True, timeout=timeout)
     return p.returncode, p.stdout + p.stderr
-rc, o = sh("git -C /repo status --porcelain")
-assert o.strip() == "", "/repo is not clean:\n" + o
+rc, o = sh("git -C %s status --porcelain" % REPO)
+assert o.strip() == "", REPO + " is not clean:\n" + o
 res = {}
 mp = os.path.join(V, "seeded", "MATRIX.json")
 if flt and os.path.exists(mp):
-    res = json.load(open(mp))
+    res = json.load(open(mp)).get("results", {})
 for d in sorted(glob.glob(os.path.join(V, "seeded", "*"))):
     name = os.path.basename(d)
     if not os.path.isdir(d) or flt not in name:
         continue
     prop = name.split("-")[0]
     patch = os.path.join(d, "patch.diff")
-    rc, o = sh("git -C /repo apply %s" % patch)
+    rc, o = sh("git -C %s apply %s" % (REPO, patch))
     if rc != 0:
         res[name] = {"applies": False, "error": o[-300:]}
-        print(name, "PATCH DOES NOT APPLY")
+        print(name, "PATCH DOES NOT APPLY", flush=True)
         continue
     try:
         rc, o = sh("VERIF_BUDGET_S=%s ./check %s quick" % (os.environ.get("SEED_BUDGET", "25"), prop))
         sigs = sorted(set(re.findall(r"^DETAIL (\S+):", o, re.M)))
         res[name] = {"applies": True, "check": prop, "exit": rc, "detected": rc == 1, "signatures": sigs[:8]}
-        print(name, "exit", rc, sigs[:4])
+        print(name, "exit", rc, sigs[:4], flush=True)
+        if rc == 2:
+            print(o[-1500:], flush=True)
     finally:
-        sh("git -C /repo checkout -- .")
-head = subprocess.run("git -C /repo log --format=%h -1", shell=True, capture_output=True, text=True).stdout.strip()
-json.dump({"repo_head": head, "results": res} if not flt else res, open(mp, "w"), indent=1)
+        sh("git -C %s checkout -- ." % REPO)
+head = subprocess.run("git -C %s log --format=%%h -1" % REPO, shell=True, capture_output=True, text=True).stdout.strip()
+json.dump({"repo_head": head, "results": res}, open(mp, "w"), indent=1)
+shutil.copy(mp, "/dev/shm/MATRIX.json")
 missed = [n for n, r in (res.items()) if isinstance(r, dict) and not r.get("detected")]
 print("missed:", missed)
